@@ -14,6 +14,7 @@ from litex.soc.interconnect import wishbone
 from litex.soc.interconnect.axi import AXILiteInterface, AXILiteDecoder, AXILiteArbiter, AXILiteInterconnectShared, AXILiteCrossbar
 from litex.soc.interconnect.axi.axi_full import AXIInterconnectShared
 from vf.core import Case
+from vf.hw import SidecarMismatch
 
 CW = LITE.CW
 NZ = lambda x: x != K(0, x.size())
@@ -118,6 +119,197 @@ def c_wb_shared_to(nm, ns, register, rset, T):
     h.use_auto = False
     h.functions = ["litex.soc.interconnect.wishbone.InterconnectShared.__init__ (timeout_cycles given)", "litex.soc.interconnect.wishbone.Timeout.__init__", "litex.soc.interconnect.wishbone.Arbiter.__init__",
                    "litex.soc.interconnect.wishbone.Decoder.__init__", "litex.gen.genlib.misc.WaitTimer.__init__", "litex.soc.integration.soc.SoCRegion.decoder"]
+    return h
+
+# =====================================================================================================================================
+# 3b. wishbone.Crossbar(register=True): read data of the answering slave (C06 "read data reach the issuing master")
+# =====================================================================================================================================
+def c_wb_xbar_data(nm, ns, register, rset):
+    """one Decoder per master (its dat_r mux uses the REGISTERED select of that master's address), one Arbiter per slave; the read-data clause
+    is stated for a request that was already pending, with the same address, in the previous cycle (held-request ghost); the first-cycle
+    acknowledge is the listed finding of Decoder(register=True)"""
+    masters = [wishbone.Interface(data_width=32, adr_width=30) for _ in range(nm)]
+    slaves = [wishbone.Interface(data_width=32, adr_width=30) for _ in range(ns)]
+    regions = WB.mk_regions(rset, ns); match = WB.match
+    d = mk(wishbone.Crossbar, masters, list(zip([r.decoder(WB.Bus) for r in regions], slaves)), register, None)
+    ins = []
+    for m in masters: ins += wb_m_inputs(m)
+    for s in slaves: ins += wb_s_inputs(s)
+    h = HwCheck(f"wishbone.Crossbar({nm}x{ns},register={register},regions={rset}).data", d, ins)
+    V = h.v
+    for s in slaves: slave_legal(h, s)
+    for i, m in enumerate(masters): master_holds(h, m, name=str(i))
+    subs = [x for _, x in d._submodules]
+    arbs = [x for x in subs if isinstance(x, wishbone.Arbiter)]; decs = [x for x in subs if isinstance(x, wishbone.Decoder)]
+    if len(arbs) != ns or len(decs) != nm: raise SidecarMismatch("Crossbar is no longer one Decoder per master + one Arbiter per slave")
+    grants = [V(a.rr.grant) if nm > 1 else K(0, 1) for a in arbs]
+    for j in range(ns):
+        if nm > 1: h.hint(f"grant{j}<n", ult(grants[j], nm))
+    for i, m in enumerate(masters):
+        gr = [(grants[j] == K(i, grants[j].size())) if nm > 1 else z3.BoolVal(True) for j in range(ns)]
+        # the acknowledge of slave j reaches master i iff arbiter j designates i (context of the data clause)
+        h.ensure(f"ens.resp{i}", z3.And(b(V(m.ack)) == z3.Or(*[z3.And(gr[j], b(V(slaves[j].ack))) for j in range(ns)]),
+                                        b(V(m.err)) == z3.Or(*[z3.And(gr[j], b(V(slaves[j].err))) for j in range(ns)])))
+        h.ensure(f"ens.once{i}", z3.Implies(z3.Or(b(V(m.ack)), b(V(m.err))), wb_req(h, m)))
+        p_req = h.prev(f"req{i}", bv1(wb_req(h, m))); p_adr = h.prev(f"adr{i}", V(m.adr))
+        continuing = z3.And(b(p_req), p_adr == V(m.adr))
+        ssr = L(decs[i], "slave_sel_r")
+        if register and ssr is not None and ssr in h.ts.var and V(ssr).size() == ns:
+            for j in range(ns): h.hint(f"m{i}.selr{j}", z3.Implies(b(p_req), bit(V(ssr), j) == match(regions[j], p_adr)))
+        for j, s in enumerate(slaves):
+            clause = lambda extra: z3.Implies(z3.And(b(V(m.ack)), gr[j], b(V(s.ack)), *extra), V(m.dat_r) == V(s.dat_r))
+            if not register: h.ensure(f"ens.data{i}.{j}", clause([]))
+            else:
+                h.ensure(f"ens.data{i}.{j}@later-cycles", clause([continuing]))
+                if i == 0 and j == ns - 1 and ns > 1:
+                    h.finding(f"finding.data{i}.{j}@first-cycle-ack", clause([]),
+                              "wishbone.Decoder(register=True) muxes dat_r with a one-cycle-old slave select while ack is combinational: a slave that acknowledges in the first cycle of a request returns another slave's (or no) read data")
+    mi, sj = masters[-1], slaves[-1]
+    h.cover("cover.ack-later-cycle", z3.And(b(V(mi.ack)), b(V(sj.ack)), b(h.ghosts[f"prev_req{nm - 1}"][0]), h.ghosts[f"prev_adr{nm - 1}"][0] == V(mi.adr)), depth=4)
+    if nm > 1 and ns > 1:
+        h.cover("cover.two-masters-two-slaves", z3.And(b(V(masters[0].ack)), b(V(masters[1].ack)), b(V(slaves[0].ack)), b(V(slaves[1].ack))), depth=4)
+    h.use_auto = False
+    h.functions = ["litex.soc.interconnect.wishbone.Crossbar.__init__", "litex.soc.interconnect.wishbone.Decoder.__init__ (register=True data mux)", "litex.soc.interconnect.wishbone.Arbiter.__init__"]
+    return h
+
+# =====================================================================================================================================
+# 1. AXILiteCrossbar
+# =====================================================================================================================================
+REQ = {"wr": "aw", "rd": "ar"}; RSP = {"wr": "b", "rd": "r"}
+def mkl(): return AXILiteInterface(data_width=32, address_width=32)
+
+def c_axil_xbar(nm, ns, all_responds=True):
+    """AXILiteCrossbar (one AXILiteDecoder per master = row, one AXILiteArbiter per slave = column), end to end between the master ports and the
+    slave ports.  Master-side specification state = the ghosts of C08_axil_ic.decoder_contract (requests outstanding per master and the slave
+    holding them); slave-side specification state = requests received and unanswered per slave port."""
+    masters = [mkl() for _ in range(nm)]; slaves = [mkl() for _ in range(ns)]; regions = LITE.regions_for(ns); match = LITE.match
+    d = mk(AXILiteCrossbar, masters, [(r.decoder(LITE.Bus), s) for r, s in zip(regions, slaves)], False, None)
+    subs = [x for _, x in d._submodules]
+    decs = [x for x in subs if isinstance(x, AXILiteDecoder)]; arbs = [x for x in subs if isinstance(x, AXILiteArbiter)]
+    ins = []
+    for m in masters: ins += master_side_inputs(m)
+    for s in slaves: ins += slave_side_inputs(s)
+    h = HwCheck(f"AXILiteCrossbar({nm}x{ns})", d, ins)
+    for i, m in enumerate(masters):
+        for ch in ("aw", "w", "ar"): src_env(h, getattr(m, ch), f"m{i}{ch}")
+    for j, s in enumerate(slaves): src_env(h, s.b, f"s{j}b"); src_env(h, s.r, f"s{j}r")
+    shape_ok = len(decs) == nm and len(arbs) == ns
+    # master-side specification state
+    mg = []; mw = []
+    for i, m in enumerate(masters):
+        lc = locals_of(decs[i]) if shape_ok else {}
+        locks, sreg = lc.get("locks"), lc.get("slave_sel_reg")
+        if not (isinstance(locks, dict) and isinstance(sreg, dict) and all(k in locks and k in sreg for k in ("write", "read"))): locks = sreg = None
+        gh, w_out = LITE.decoder_contract(h, m, slaves, regions, locks, sreg, prefix=f"m{i}.")
+        mg.append(gh); mw.append(w_out)
+    # slave-side specification state and the AXI4-Lite rules of each slave stated at its own port
+    sg = []
+    for j, s in enumerate(slaves):
+        scnt = {}
+        for dirn in ("wr", "rd"):
+            c = h.ghost(f"s{j}.{dirn}_out", CW); h.ghost_next(c, updown(c, fire(h, getattr(s, REQ[dirn])), fire(h, getattr(s, RSP[dirn])))); scnt[dirn] = c
+            h.assume(ult(c, 200), "fewer than 200 requests outstanding per slave and direction (counter capacity 255)")
+            h.hint(f"s{j}.{dirn}.cnt<255", ult(c, 255))
+        sw = h.ghost(f"s{j}.w_out", CW); h.ghost_next(sw, updown(sw, fire(h, s.w), fire(h, s.b))); h.assume(ult(sw, 200))
+        h.assume(z3.Implies(b(h.v(s.b.valid)), z3.And(NZ(scnt["wr"]), NZ(sw))), "slave sends B only for a write it has received (AW and W) and not yet answered")
+        h.assume(z3.Implies(b(h.v(s.r.valid)), NZ(scnt["rd"])), "slave sends R only for a read it has received and not yet answered")
+        scnt["w"] = sw; sg.append(scnt)
+    if not shape_ok:
+        # the crossbar is no longer rows of decoders and columns of arbiters: no grant register to state ownership with; the port-level clauses below decide
+        h.use_auto = True
+    def grant_of(j, dirn):
+        if not shape_ok: return None
+        return (arbs[j].rr_write if dirn == "wr" else arbs[j].rr_read).grant
+    for dirn, chans in (("wr", ("aw", "w", "b")), ("rd", ("ar", "r"))):
+        if not shape_ok: break
+        grants = [h.v(grant_of(j, dirn)) for j in range(ns)]
+        for j, (s, a) in enumerate(zip(slaves, arbs)):
+            g = grants[j]; sc = sg[j][dirn]
+            h.hint(f"s{j}.{dirn}.grant<n", ult(g, nm))
+            h.hint(f"s{j}.{dirn}.arbcnt", zx(h.v((a.wr_lock if dirn == "wr" else a.rd_lock).counter), CW) == sc)
+            # code-derived coupling of the two views: requests held by slave j belong to the granted master, which is locked on slave j
+            h.hint(f"s{j}.{dirn}.owner", z3.Implies(NZ(sc), z3.Or(*[z3.And(eqc(g, i), bit(mg[i][dirn][1], j), mg[i][dirn][0] == sc) for i in range(nm)])))
+            for i in range(nm):
+                cnt, tgt, _ = mg[i][dirn]
+                h.hint(f"m{i}.s{j}.{dirn}.held", z3.Implies(z3.And(NZ(cnt), bit(tgt, j)), z3.And(eqc(g, i), sc == cnt)))
+            h.ensure(f"ens.{dirn}.s{j}.grant-exists", ult(g, nm))
+            # arbitration never changes while responses are outstanding at the slave: a slave never serves two masters at once
+            h.ensure(f"ens.{dirn}.s{j}.grant-lock", z3.Implies(NZ(sc), h.n(grant_of(j, dirn)) == g))
+            # the response of slave j goes to a master that has unanswered requests at slave j (the issuing master)
+            for i in range(nm):
+                cnt, tgt, _ = mg[i][dirn]
+                h.ensure(f"ens.{dirn}.s{j}.resp-to-issuer{i}", z3.Implies(z3.And(fire(h, getattr(s, RSP[dirn])), eqc(g, i)), z3.And(NZ(cnt), bit(tgt, j), cnt == sc)))
+        for i, m in enumerate(masters):
+            cnt, tgt, dec = mg[i][dirn]
+            for c in chans:
+                me = getattr(m, c); pairs = []
+                for j, s in enumerate(slaves):
+                    se = getattr(s, c); mine = z3.And(fire(h, se), eqc(grants[j], i)); pairs.append(mine)
+                    # a transfer at slave port j under grant i is the same transfer at master port i, unchanged (requests forward, responses back: once)
+                    h.ensure(f"ens.{dirn}.{c}.m{i}s{j}.same-transfer", z3.Implies(mine, z3.And(fire(h, me), paytok(h, se) == paytok(h, me))))
+                    # slave selection never changes while responses are outstanding: nothing of master i moves at any other slave
+                    h.ensure(f"ens.{dirn}.{c}.m{i}s{j}.sel-lock", z3.Implies(z3.And(NZ(cnt), z3.Not(bit(tgt, j))), z3.Not(mine)))
+                # every transfer at master port i has its counterpart at exactly one slave port
+                h.ensure(f"ens.{dirn}.{c}.m{i}.exactly-one-slave", z3.Implies(fire(h, me), z3.And(z3.AtMost(*pairs, 1), z3.Or(*pairs))))
+            # slave chosen by address (under the decoder's listed scenario restriction)
+            req = getattr(m, REQ[dirn]); same_i = z3.Implies(NZ(cnt), dec == tgt)
+            for j, s in enumerate(slaves):
+                h.ensure(f"ens.{dirn}.m{i}s{j}.by-address@same-target", z3.Implies(z3.And(fire(h, getattr(s, REQ[dirn])), eqc(grants[j], i), same_i), match(regions[j], h.v(req.addr))))
+            if i == 0 and ns > 1:
+                j = 0
+                h.finding(f"finding.{dirn}.m{i}s{j}.by-address@other-target-while-outstanding", z3.Implies(z3.And(fire(h, getattr(slaves[j], REQ[dirn])), eqc(grants[j], i)), match(regions[j], h.v(req.addr))),
+                          "AXILiteDecoder (row of the crossbar) freezes the slave select while responses are outstanding but does not stall a new AW/AR that decodes to a different slave: the locked slave accepts it")
+    # port-level statements (no internal register named) -------------------------------------------------------------------------------
+    for dirn, chans in (("wr", ("aw", "w", "b")), ("rd", ("ar", "r"))):
+        for c in chans:
+            for j, s in enumerate(slaves):
+                # every transfer at slave port j is the transfer of (exactly) one master port, unchanged
+                h.ensure(f"ens.{dirn}.{c}.s{j}.from-one-master", z3.Implies(fire(h, getattr(s, c)), z3.Or(*[z3.And(fire(h, getattr(m, c)), paytok(h, getattr(m, c)) == paytok(h, getattr(s, c))) for m in masters])))
+            # transfers are neither duplicated nor dropped: as many at the slave ports as at the master ports
+            cntw = max(nm, ns).bit_length() + 1
+            h.ensure(f"ens.{dirn}.{c}.conserved", z3.Sum(*[zx(bv1(fire(h, getattr(s, c))), cntw) for s in slaves]) == z3.Sum(*[zx(bv1(fire(h, getattr(m, c))), cntw) for m in masters]))
+        # a slave never sees two masters at once: at most one master per cycle hands a request to slave j
+        for j, s in enumerate(slaves):
+            reqs = []
+            for i, m in enumerate(masters):
+                cnt, tgt, dec = mg[i][dirn]; me = getattr(m, REQ[dirn])
+                reqs.append(z3.And(fire(h, me), z3.If(NZ(cnt), bit(tgt, j), match(regions[j], h.v(me.addr)))))
+            h.ensure(f"ens.{dirn}.s{j}.one-master-at-a-time", z3.AtMost(*reqs, 1))
+            # exactly the requests aimed at slave j arrive there (with by-address: no other slave gets them)
+            h.ensure(f"ens.{dirn}.s{j}.arrives", fire(h, getattr(s, REQ[dirn])) == z3.Or(*reqs))
+    # the W beat of the pair reaches the slave chosen by the address of its AW (W together with or after its AW, same target while outstanding)
+    for i, m in enumerate(masters):
+        wcnt, wtgt, wdec = mg[i]["wr"]; w_out = mw[i]; awv = b(h.v(m.aw.valid))
+        w_due = z3.UGT(wcnt, w_out)
+        w_after_aw = z3.Implies(b(h.v(m.w.valid)), z3.Or(awv, w_due))
+        same_i = z3.Implies(z3.And(awv, NZ(wcnt)), wdec == wtgt)
+        for j, s in enumerate(slaves):
+            right = z3.If(w_due, bit(wtgt, j), z3.And(awv, match(regions[j], h.v(m.aw.addr))))
+            others = z3.Or(*[z3.And(fire(h, o.w), paytok(h, o.w) == paytok(h, s.w)) for k, o in enumerate(masters) if k != i]) if nm > 1 else z3.BoolVal(False)
+            if shape_ok:
+                h.ensure(f"ens.wr.w.m{i}s{j}.by-address@w-not-before-aw", z3.Implies(z3.And(fire(h, s.w), eqc(h.v(grant_of(j, "wr")), i), w_after_aw, same_i), right))
+    # every requesting master is served: master i asking for slave j is granted and can hand over its request within a bounded time, whatever the
+    # other masters do at other slaves (nothing outstanding at slave j, nobody else aiming at slave j)
+    for dirn in ("wr", "rd"):
+        for i, m in enumerate(masters):
+            if not shape_ok: break
+            if not (all_responds or i == (nm - 1 if dirn == "wr" else 0)): continue
+            cnt, tgt, dec = mg[i][dirn]; req = getattr(m, REQ[dirn]); j = (i + 1) % ns
+            def aims(k, j=j, dirn=dirn):
+                kc, kt, kd = mg[k][dirn]; km = masters[k]
+                act = z3.Or(b(h.v(km.aw.valid)), b(h.v(km.w.valid))) if dirn == "wr" else b(h.v(km.ar.valid))
+                return z3.And(act, bit(z3.If(NZ(kc), kt, kd), j))
+            coop = z3.And(b(h.v(req.valid)), match(regions[j], h.v(req.addr)), cnt == K(0, CW), sg[j][dirn] == K(0, CW), z3.Not(b(h.v(getattr(slaves[j], RSP[dirn]).valid))),
+                          *[z3.Not(aims(k)) for k in range(nm) if k != i])
+            sreq = getattr(slaves[j], REQ[dirn])
+            h.respond(f"resp.{dirn}.m{i}.offered-to-s{j}", coop, z3.And(eqc(h.v(grant_of(j, dirn)), i), b(h.v(sreq.valid)), paytok(h, sreq) == paytok(h, req)), 2)
+    h.cover("cover.b-and-r", z3.And(fire(h, masters[-1].b), fire(h, masters[0].r)), depth=5)
+    if nm > 1 and ns > 1:
+        h.cover("cover.parallel-writes", z3.And(fire(h, slaves[0].w), fire(h, slaves[1].w), fire(h, masters[0].w), fire(h, masters[1].w)), depth=5)
+        h.cover("cover.last-master-last-slave", z3.And(fire(h, slaves[-1].b), fire(h, masters[-1].b), fire(h, slaves[0].r), fire(h, masters[-1].r) if nm > 2 else fire(h, masters[0].r)), depth=6)
+    h.bmc_depth = 6
+    h.functions = ["litex.soc.interconnect.axi.axi_lite.AXILiteCrossbar.__init__", "litex.soc.interconnect.axi.axi_lite.AXILiteArbiter.__init__",
+                   "litex.soc.interconnect.axi.axi_lite.AXILiteDecoder.__init__", "litex.soc.interconnect.axi.axi_lite.get_check_parameters"]
     return h
 
 def cases(tier):
